@@ -2,7 +2,7 @@
 From IV Require Import Base.Bytes Base.BytesFacts Model.Policy Model.Smtp Model.Dot Model.SmtpWire Proofs.SmtpInv Proofs.SmtpThms Proofs.DotCodec Proofs.SmtpCut Proofs.SmtpBytes.
 From Coq Require Import ZifyBool ZifyNat ZifyN Lia.
 From IV Require Import Proofs.SmtpNet.
-Theorem net_session_always_ends : forall c o chunks f, tls_enabled c = false ->
+Theorem net_session_always_ends : forall c o chunks f,
   st (snd (run_net c o chunks f)) = QUIT.
 Proof. first [exact SmtpNet.net_session_always_ends | intros; apply SmtpNet.net_session_always_ends]. Qed.
 Print Assumptions net_session_always_ends.
